@@ -36,7 +36,7 @@ PARK = ("fs.tmpname", "fs.open", "fs.close", "fs.unlink")
 
 def budget(tier):
     if tier == "quick":
-        return {"runs": 1000, "wall": 75, "chunk": 8}
+        return {"runs": 1000, "wall": 120, "chunk": 8}
     return {"runs": 60000, "wall": 1500, "chunk": 8}
 
 
